@@ -32,7 +32,10 @@ EXPLANATION = (
     '(incl. the program behind a LocalProgram) is built by the test prerequisite statement; R1d also covers the option-object value paths of the resolver '
     '(yielding options). All rules read a source-to-source normal form (small helpers inlined, conditional expressions/filter()/dict comprehensions desugared, '
     'calls bound by signature) and report only on positive evidence or in a closed world. '
-    'Does NOT decide: equality of the two generated artefacts for a concrete project (run-time values); uniqueness of the source-path keys of '
+    'R2d also requires that beyond their common tail install_path and install_path_name differ only in their roots, and that a literal `{name}` root '
+    'names the directory option the real root was read from (producers and OptionString(real, name) sites). '
+    'Does NOT decide: equality of the two generated artefacts for a concrete project (run-time values); agreement of two *opaque* roots '
+    '(install_dir vs install_dir_name objects) or a directory joined on one side in front of the common tail; uniqueness of the source-path keys of '
     'intro-install_plan/intro-installed (several install_data() of one file collapse - documented format); whether two path expressions name the same '
     'file (fs.read registering a relative name); value semantics of join_paths (install_dir_name text); env.unset() as seen by mtest; build files of a '
     'failed optional subproject.')
@@ -491,7 +494,7 @@ def r1a(ctx: RuleCtx) -> None:
           False, nmod, 'NinjaBackend.generate_tests', gt, 'generate_tests no longer pickles the test data through serialize_tests')
     _always_runs(ctx, 'generate_tests')
     for kind, mode in (('tests', False), ('benchmarks', True)):
-        fn = intro_func(mod, kind)
+        fn = normal_func(mod, intro_func(mod, kind).name)
         qn = fn.name
         pb, pk = param(fn, 1, qn), param(fn, 2, qn)
         fname = loaded.get(mode)
@@ -1260,7 +1263,7 @@ def r2a(ctx: RuleCtx) -> None:
     # the projection function used by both list_tests and list_benchmarks
     projs = set()
     for kind in ('tests', 'benchmarks'):
-        fn = intro_func(mod, kind)
+        fn = normal_func(mod, intro_func(mod, kind).name)
         rets = [r.value for r in ast.walk(fn) if isinstance(r, ast.Return) and r.value is not None]
         for r in rets:
             r = Locals(fn).resolve(r)
@@ -1656,6 +1659,39 @@ def _join_parts(e: ast.AST) -> T.List[ast.AST]:
     return [e]
 
 
+def _dir_accessors(ctx: RuleCtx) -> T.Dict[str, str]:
+    """Environment.get_<x>() -> name of the directory option it reads (folded from the OptionKey constant in its body)."""
+    cached = getattr(ctx.repo, '_c15_dir_accessors', None)
+    if cached is None:
+        em = ctx.repo.module('mesonbuild/environment.py')
+        cached = {}
+        for nm, f in em.methods('Environment').items():
+            body = [s_ for s_ in f.body if not (isinstance(s_, ast.Expr) and isinstance(s_.value, ast.Constant))]
+            if len(body) == 1 and isinstance(body[0], ast.Return) and body[0].value is not None:
+                keys = [c.args[0].value for c in ast.walk(body[0].value) if isinstance(c, ast.Call) and call_method(c) == 'OptionKey' and len(c.args) == 1
+                        and isinstance(c.args[0], ast.Constant) and isinstance(c.args[0].value, str)]
+                keys += [c.args[0].value for c in ast.walk(body[0].value) if isinstance(c, ast.Call) and call_method(c) in ('get_value_for', 'get_option')
+                         and len(c.args) == 1 and isinstance(c.args[0], ast.Constant) and isinstance(c.args[0].value, str)]
+                if len(set(keys)) == 1:
+                    cached[nm] = keys[0]
+        setattr(ctx.repo, '_c15_dir_accessors', cached)
+    return cached
+
+
+def _root_option(ctx: RuleCtx, root: ast.AST, whole: T.Optional[ast.AST]) -> T.Optional[str]:
+    """Directory option a path root stands for: `<...>.environment.get_X()` -> option of X; the literal '{name}' -> name;
+    `NAME.replace('{name}', <accessor call>)` on the whole expression -> option of the accessor."""
+    import re as _re
+    if whole is not None and isinstance(whole, ast.Call) and call_method(whole) == 'replace' and len(whole.args) == 2:
+        return _root_option(ctx, whole.args[1], None)
+    if isinstance(root, ast.Constant) and isinstance(root.value, str):
+        m_ = _re.fullmatch(r'\{(\w+)\}', root.value)
+        return m_.group(1) if m_ else None
+    if isinstance(root, ast.Call) and not root.args and not root.keywords and (recv(root) or '').split('.')[-1] == 'environment':
+        return _dir_accessors(ctx).get(call_method(root) or '')
+    return None
+
+
 def _strip_placeholder_replace(e: ast.AST) -> ast.AST:
     """`X.replace('{name}', root)` names the same relative path as X (placeholder substitution only)."""
     while isinstance(e, ast.Call) and call_method(e) == 'replace' and isinstance(e.func, ast.Attribute) and len(e.args) == 2 \
@@ -1678,6 +1714,7 @@ def r2d(ctx: RuleCtx) -> None:
                        and any(isinstance(c, ast.Call) and call_method(c) in INSTALL_CTORS for c in ast.walk(f)))
     ctx.floor('producers of InstallDataBase/SubdirInstallData entries', len(producers), 5)
     n_ctor = 0
+    roots_all: T.List[T.Tuple[str, str]] = []
     for name in producers:
         bm, qn, fn = _resolved_method(ctx, name)
         fn = normal_func(bm, qn, fn=fn)
@@ -1695,6 +1732,7 @@ def r2d(ctx: RuleCtx) -> None:
                 leafvars[id(c)] = {x.id for x in ast.walk(loops_[0].target) if isinstance(x, ast.Name)} if len(loops_) >= 2 else set()
         results: T.Dict[int, T.List[T.Tuple[bool, str, str]]] = {}
         ctor_node: T.Dict[int, ast.Call] = {}
+        roots_seen: T.List[T.Tuple[str, str]] = roots_all
         for pth in enumerate_paths(fn.body):
             env: T.Dict[str, ast.AST] = {}
             for ev in pth.events:
@@ -1728,6 +1766,24 @@ def r2d(ctx: RuleCtx) -> None:
                     what = ' & '.join(('' if v else 'not ') + t for t, v in pth.conds()) or 'always'
                     detail = (f'install_path is joined from per-file components {leaf["install_path"] + [b for b in base["install_path"] if b not in leaf["install_path"]]}, '
                               f'install_path_name from {leaf["install_path_name"] + [b for b in base["install_path_name"] if b not in leaf["install_path_name"]]}')
+                    # beyond the common tail the two paths may differ only in their roots: a component present in both remainders means that one
+                    # side had something joined after it that the other side lacks
+                    cp, cn = [norm(x) for x in comps['install_path']], [norm(x) for x in comps['install_path_name']]
+                    while cp and cn and cp[-1] == cn[-1]:
+                        cp.pop()
+                        cn.pop()
+                    shared = [x for x in cp if x in cn]
+                    if ok and shared:
+                        ok = False
+                        detail = (f'both paths start from `{shared[0]}` but continue differently: install_path with {cp[cp.index(shared[0]) + 1:] or "nothing"}, '
+                                  f'install_path_name with {cn[cn.index(shared[0]) + 1:] or "nothing"}')
+                    # the placeholder at the root of the name stands for the directory option the real root was read from
+                    rp, rn_ = _root_option(ctx, comps['install_path'][0], args['install_path']), _root_option(ctx, comps['install_path_name'][0], None)
+                    if rp is not None and rn_ is not None:
+                        roots_seen.append((rp, rn_))
+                        if ok and rp != rn_:
+                            ok = False
+                            detail = f'install_path starts at the `{rp}` directory option, install_path_name at the placeholder `{{{rn_}}}`'
                     results.setdefault(id(oc), []).append((ok, what, detail))
                     ctor_node[id(oc)] = oc
                 if isinstance(st, (ast.Assign, ast.AnnAssign)) and getattr(st, 'value', None) is not None:
@@ -1753,6 +1809,32 @@ def r2d(ctx: RuleCtx) -> None:
             else:
                 ctx.ok(f'{qn}: `{short(oc, 60)}`: install_path and install_path_name carry the same per-file components on {len(rs)} path(s)')
     ctx.floor('install entry constructor sites', n_ctor, 6)
+    # the same pairing where an install directory and its placeholder name are created together: OptionString(<real>, <name>)
+    n_os = 0
+    for rel in ('mesonbuild/modules/pkgconfig.py', INTERP, 'mesonbuild/modules/python.py', 'mesonbuild/modules/i18n.py'):
+        om = ctx.repo.module(rel)
+        for q, f in om.funcs().items():
+            if q.count('.') > 1:
+                continue
+            sites = [c for c in walk_no_nested(f) if isinstance(c, ast.Call) and call_method(c) == 'OptionString' and len(c.args) == 2 and not c.keywords]
+            if not sites:
+                continue
+            floc = Locals(f)
+            for c in sites:
+                try:
+                    real, name_ = _inline(floc, c.args[0]), _inline(floc, c.args[1])
+                except Undecided:
+                    continue
+                pr, pn = _join_parts(real), _join_parts(name_)
+                rp, rn_ = _root_option(ctx, pr[0], real), _root_option(ctx, pn[0], None)
+                if rp is None or rn_ is None:
+                    continue          # roots that are not a directory accessor / a literal placeholder: nothing to compare
+                n_os += 1
+                tails_ok = [norm(x) for x in pr[1:]] == [norm(x) for x in pn[1:]]
+                ctx.require(rp == rn_ and tails_ok, f'{q}: OptionString pairs the `{rp}` directory with its placeholder `{{{rn_}}}` and the same tail', om, q, c,
+                            f'`{short(c, 150)}` pairs a real path below the `{rp}` directory option (tail {[norm(x) for x in pr[1:]]}) with the name '
+                            f'`{{{rn_}}}` (tail {[norm(x) for x in pn[1:]]}): intro-install_plan.json announces another directory than the one `meson install` writes to', c)
+    ctx.floor('install roots compared with their placeholder', len(roots_all) + n_os, 5)
 
 
 
